@@ -23,6 +23,8 @@ import (
 var (
 	outcomeMu sync.Mutex
 	outcomes  = map[string]struct{}{}
+	debug     = os.Getenv("VERIF_DEBUG") != ""
+	dbgFails  = map[string]string{}
 )
 
 func outcome(view string, c fmt.Stringer) {
@@ -62,10 +64,10 @@ func ctx(m *mw.Model, x string) string {
 	if m.Tombstoned(x) {
 		p = append(p, "tombstoned")
 	}
-	switch m.Locked(x) {
-	case mw.Yes:
-		p = append(p, "locked")
-	case mw.Either:
+	if ls, ll := m.LockInfo(x); ls > 0 {
+		p = append(p, fmt.Sprintf("locks(live=%d,stored=%d)", ll, ls))
+	}
+	if m.Locked(x) == mw.Either {
 		p = append(p, "lock-unsure")
 	}
 	if m.OwnExpiredUnlocked(x) == mw.Yes {
@@ -276,14 +278,22 @@ func oracle(s *mw.Sys) (string, string) {
 		if want == 0 || got == mw.ClsOther {
 			return
 		}
+		modelFired := false
 		if got.St()&want == 0 {
-			fail(fmt.Sprintf("ec:want=%s:got=%s:part[%s]:parent[%s]", want, got, ctx(m, part), ctx(m, parent)),
-				fmt.Sprintf("ResolveECPart(%s -> %s) reports %s, rules allow {%s}", parent, part, got, want))
+			modelFired = true
+			if got == mw.ClsPresent && pstored && m.Status(parent, false) == mw.Avail {
+				// the parent is fine, the part itself is not: one structural class
+				fail(fmt.Sprintf("ec:resolves-part-that-is-not-available:part-own-status=%s:parent=available", m.OwnStatus(part)),
+					fmt.Sprintf("ResolveECPart(%s, index of %s) returns %s although the rules give it status {%s} (Exists(%s) = %s)", parent, part, gotPart, want, part, o.A[part].Exists))
+			} else {
+				fail(fmt.Sprintf("ec:want=%s:got=%s:part[%s]:parent[%s]", want, got, ctx(m, part), ctx(m, parent)),
+					fmt.Sprintf("ResolveECPart(%s -> %s) reports %s, rules allow {%s}", parent, part, got, want))
+			}
 		}
 		if got == mw.ClsPresent && gotPart != part {
 			fail("ec:wrong-part", fmt.Sprintf("ResolveECPart(%s, idx of %s) returned %s", parent, part, gotPart))
 		}
-		if got == mw.ClsPresent && o.A[gotPart] != nil && o.A[gotPart].Exists != mw.ClsPresent {
+		if !modelFired && got == mw.ClsPresent && o.A[gotPart] != nil && o.A[gotPart].Exists != mw.ClsPresent {
 			fail(fmt.Sprintf("cross:ResolveECPart-returns-part:Exists(part)=%s", o.A[gotPart].Exists), fmt.Sprintf("ResolveECPart(%s) resolves %s which Exists reports as %s", parent, gotPart, o.A[gotPart].Exists))
 		}
 	}
@@ -304,7 +314,15 @@ func oracle(s *mw.Sys) (string, string) {
 	if len(fails) == 0 {
 		return "", ""
 	}
-	sort.SliceStable(fails, func(i, j int) bool { return false }) // keep discovery order (fixed)
+	if debug {
+		outcomeMu.Lock()
+		for _, f := range fails {
+			if _, ok := dbgFails[f.fp]; !ok {
+				dbgFails[f.fp] = fmt.Sprintf("%v: %s", s.HistNames(), f.what)
+			}
+		}
+		outcomeMu.Unlock()
+	}
 	return fails[0].fp, fails[0].what + fmt.Sprintf(" [epoch %d, %d oracle failures in this state]", m.Epoch, len(fails))
 }
 
@@ -314,9 +332,9 @@ func main() {
 	defer os.RemoveAll(scratch)
 
 	ops := append(mw.FullAlphabet(), mw.MacroOps()...)
-	depth := 3
+	depth := 2
 	if r.Thorough() {
-		depth = 4
+		depth = 3
 	}
 	cfg := seqx.Config{NumOps: len(ops), MaxDepth: depth, CheckInit: true,
 		OpName: func(i int) string { return ops[i].String() },
@@ -338,6 +356,16 @@ func main() {
 	}
 
 	res := seqx.Run(r, cfg)
+	if debug {
+		var ks []string
+		for k := range dbgFails {
+			ks = append(ks, k)
+		}
+		sort.Strings(ks)
+		for _, k := range ks {
+			fmt.Printf("DBG %s\n      %s\n", k, dbgFails[k])
+		}
+	}
 	r.Set("outcome_classes", len(outcomes))
 	r.Set("alphabet_size", len(ops))
 	r.Set("universe_addresses", len(mw.Specs))
